@@ -503,3 +503,54 @@ func (c *Check) updatesTakeEffect(rule string) {
 		}
 	}
 }
+
+// constructorRules: what the function that stores a newly built request context guarantees about the stored value.
+//   frequency (C10/C11): a repeated context is stored with a usable frequency — on every committed path that has established
+//     Repeated, the stored RepeatedFrequency is either established non-zero or is the stored Timeout itself (the documented
+//     default); a zero frequency schedules the next batch in the past and the context is never processed again;
+//   callbacks (C12/C20): a context with an owning module is stored only on paths that have established that the module has
+//     registered BOTH callbacks (response and state) — block processing calls them without a nil test.
+func (c *Check) constructorRules(rule string, which map[string]bool) {
+	var respG, stateG *Func
+	for _, f := range c.handFuncs("keeper") {
+		if len(f.Res) == 2 && f.Body != nil {
+			switch typeName(f.Res[0].Type()) {
+			case "types.ResponseCallback":
+				respG = f
+			case "types.StateCallback":
+				stateG = f
+			}
+		}
+	}
+	n := 0
+	for _, w := range c.contextWrites() {
+		if w.L.Op != "lit" {
+			continue
+		}
+		n++
+		facts := c.closeFacts(w.PP.Facts)
+		if which["frequency"] {
+			R, F, T := fieldB(w, "Repeated"), stripConv(fieldB(w, "RepeatedFrequency")), stripConv(fieldB(w, "Timeout"))
+			repeated := facts.Holds(R, true) || R.IsAt("#true")
+			if repeated {
+				ok := F.Eq(T) || facts.Holds(mk("==", F, atom("#0")), false) || facts.Holds(mk("<", atom("#0"), F), true)
+				c.req(ok, rule, unitConstruct(w.Fn, "repeated-frequency-usable"), w.PP.Path.RetPos,
+					"a repeated context is stored with a frequency the path has established to be non-zero, or with its timeout as the default: RepeatedFrequency = "+shortTerm(F))
+			}
+		}
+		if which["callbacks"] {
+			M := fieldB(w, "ModuleName")
+			if facts.Holds(mk("nonempty", M), true) {
+				if respG == nil || stateG == nil {
+					c.undecided(rule, "callback-getters", token.NoPos, "functions returning the registered response / state callback not found")
+				} else {
+					okR := facts.Holds(mk("ok", mk(respG.Name, M)), true)
+					okS := facts.Holds(mk("ok", mk(stateG.Name, M)), true)
+					c.req(okR && okS, rule, unitConstruct(w.Fn, "module-callbacks-registered"), w.PP.Path.RetPos,
+						fmt.Sprintf("a context with an owning module is stored only after both of the module's callbacks were found registered (response: %v, state: %v)", okR, okS))
+				}
+			}
+		}
+	}
+	c.req(n >= 1, rule, "constructor-paths", token.NoPos, fmt.Sprintf("%d committed paths store a newly built context", n))
+}
